@@ -86,9 +86,16 @@ func (d *Disk) ent(i uint64) (Ent, bool) {
 }
 
 // newestSnap returns the newest durable snapshot by (term, index), nil if none.
-func (d *Disk) newestSnap() *SnapRec {
+func (d *Disk) newestSnap() *SnapRec { return d.newestSnapExcept(nil) }
+
+// newestSnapExcept: the newest snapshot among those not in skip (snapshots whose Open failed
+// with an injected error during this start-up are not "usable", C10).
+func (d *Disk) newestSnapExcept(skip map[string]bool) *SnapRec {
 	var best *SnapRec
 	for _, s := range d.snaps {
+		if skip[s.Meta.ID] {
+			continue
+		}
 		if best == nil || s.Meta.Term > best.Meta.Term || (s.Meta.Term == best.Meta.Term && s.Meta.Index > best.Meta.Index) ||
 			(s.Meta.Term == best.Meta.Term && s.Meta.Index == best.Meta.Index && s.Meta.ID > best.Meta.ID) {
 			best = s
@@ -472,6 +479,12 @@ func (s *snapStore) List() ([]*raft.SnapshotMeta, error) {
 
 func (s *snapStore) Open(id string) (*raft.SnapshotMeta, io.ReadCloser, error) {
 	if err := s.pre("SnapOpen", false); err != nil {
+		if s.inc.booting {
+			if s.inc.openFailed == nil {
+				s.inc.openFailed = map[string]bool{}
+			}
+			s.inc.openFailed[id] = true
+		}
 		return nil, nil, err
 	}
 	for _, r := range s.d.snaps {
